@@ -434,8 +434,12 @@ static Prog PROGS[] = { { "tree_bst", prog_tree_bst }, { "tree_rb", prog_tree_rb
 			{ "thread", prog_thread }, { "loader", prog_loader },
 			{ "errors", prog_errors }, { "socket_udp", prog_socket_udp }, { "thread2", prog_thread2 }, { "misc", prog_misc }, { NULL, NULL } };
 
+/* resources next to the allocator table: mappings of shared-memory objects and open descriptors of the process */
+#include <dirent.h>
+static int count_shm_maps (void) { FILE *f = fopen ("/proc/self/maps", "r"); char line[512]; int n = 0; if (!f) return -1; while (fgets (line, sizeof line, f)) if (strstr (line, "/dev/shm/")) n++; fclose (f); return n; }
+static int count_fds (void) { DIR *d = opendir ("/proc/self/fd"); struct dirent *e; int n = 0; if (!d) return -1; while ((e = readdir (d))) if (e->d_name[0] != '.') n++; closedir (d); return n; }
 static int child_run (Prog *pr, long k, int mode, const char *path) {
-	PMemVTable vt;
+	PMemVTable vt; int maps0, fds0;
 	vt_open (path);
 	p_libsys_init ();
 	/* warm-up outside the ledger: lazily initialised libc / library state */
@@ -443,10 +447,11 @@ static int child_run (Prog *pr, long k, int mode, const char *path) {
 	  wt = p_uthread_create ((PUThreadFunc) thr_fn, NULL, TRUE, NULL); if (wt) { p_uthread_join (wt); p_uthread_unref (wt); } }
 	vt.f_malloc = a_malloc; vt.f_realloc = a_realloc; vt.f_free = a_free;
 	if (!p_mem_set_vtable (&vt)) return 3;
+	maps0 = count_shm_maps (); fds0 = count_fds ();
 	fail_k = k; fail_mode = mode; alloc_no = 0; ever_refused = 0; tracking = 1;
 	pr->fn ();
 	tracking = 0;
-	vt_emit ("{\"e\":\"quiesce\",\"allocs\":%ld,\"live\":%d}", alloc_no, nlive);
+	vt_emit ("{\"e\":\"quiesce\",\"allocs\":%ld,\"live\":%d,\"maps\":%d,\"fds\":%d}", alloc_no, nlive, count_shm_maps () - maps0, count_fds () - fds0);
 	p_mem_restore_vtable ();
 #if defined (__SANITIZE_ADDRESS__)
 	/* memory the C library allocated on behalf of a call (resolver results, ...) does not go through the allocator table: blocks that
